@@ -16,7 +16,7 @@ Section MainThm.
   Variable V : Type.
   Variable parse : string -> option V.
   Variable print : V -> string.
-  Variable lib : list (string * value) -> bool -> list (list V)
+  Variable lib : list (string * value) -> bool -> nat -> list (list V)
                  -> option (list (list V) * option (list (list V) * list V)).
 
   Lemma io_char_first : forall io k s, assoc k io = Some (first_char s) -> io_char io k = Some (delim_char s).
@@ -35,6 +35,7 @@ Section MainThm.
     | RWrong _ => Fail 1%Z
     | RMat file =>
       match lib ps (flag g ["precompute"])
+                (if negb (flag g ["transpose-input"]) then length file else width V file)
                 (if negb (flag g ["transpose-input"]) then transpose V file else file) with
       | None => Fail 1%Z
       | Some (E, proj) =>
@@ -98,7 +99,7 @@ Section MainThm.
         rewrite E1 in E; [injection E as <-; discriminate|discriminate E].
     - destruct (cli_main_run a content ps io E) as [ds [_ Hm]]. rewrite Hm.
       destruct (read_data_fixed V parse (delim_char ds) content) as [file|i].
-      + destruct (lib ps _ _) as [[Em [[pm mean]|]]|].
+      + destruct (lib ps _ _ _) as [[Em [[pm mean]|]]|].
         * destruct (flag _ _ && flag _ _); right; eexists; reflexivity.
         * destruct (flag _ _ && flag _ _); right; eexists; reflexivity.
         * left. exists 1%Z. split; [reflexivity|discriminate].
